@@ -95,7 +95,7 @@ type RouterModel struct {
 }
 
 type rmCtx struct {
-	node *RouteNode
+	node         *RouteNode
 	p            *Program
 	info         *types.Info
 	path, method types.Object // params of the current route function
